@@ -21,6 +21,9 @@ Fixpoint lit (x : string) : str :=
   | String a r => N_of_ascii a :: lit r
   end.
 
+(* short name used by the template-heavy model files *)
+Definition L (x : string) : str := lit x.
+
 Definition is_nil {A} (l : list A) : bool := match l with [] => true | _ => false end.
 
 Fixpoint str_eqb (a b : str) : bool :=
